@@ -63,10 +63,10 @@ TdmsTypesOfArray(ac) ==
     [] ac = "list_i64" -> {"Int64"} [] ac = "list_u64" -> {"Uint64"}
     [] ac = "list_float" -> {"DoubleFloat"} [] ac = "list_bool" -> {"Int8", "Boolean"}
     [] ac \in {"list_str", "np_str", "list_str_multibyte", "list_str_all_empty", "np_obj_str"} -> {"String"}
-    [] ac \in {"np_datetime64_us", "np_datetime64_ns", "list_datetime", "timestamp_array", "np_obj_datetime"} -> {"TimeStamp"}
+    [] ac \in {"np_datetime64_us", "np_datetime64_ns", "list_datetime", "timestamp_array", "np_obj_datetime", "list_datetime64"} -> {"TimeStamp"}
 
 ListClass(ac) == ac \in {"list_i8", "list_u8", "list_i16", "list_u16", "list_i32", "list_u32", "list_i64", "list_u64",
-                         "list_float", "list_bool", "list_str", "list_str_multibyte", "list_str_all_empty", "list_datetime"}
+                         "list_float", "list_bool", "list_str", "list_str_multibyte", "list_str_all_empty", "list_datetime", "list_datetime64"}
 \* classes whose type is taken from the first element: an empty array of them cannot be written
 NeedsElement(ac) == ListClass(ac) \/ ac \in {"np_str", "np_obj_str", "np_obj_datetime", "timestamp_array", "np_be_int32", "np_be_float64",
                                               "np_datetime64_us", "np_datetime64_ns"}
